@@ -285,46 +285,139 @@ def rule_r2(rep, repo):
     rep.floor("methods branching on the store flag", n, 2)
 
 
+def _loop_graph(repo, cls, f, loop, symbols):
+    """Value graphs after one symbolic iteration of ``loop`` (statements before it executed first)."""
+    from gridlint import e5
+    vg = e5.VG(repo, cls, f.node, inline=False)
+    for s in strip_docstring(f.node.body):
+        if s is loop:
+            break
+        vg.stmt(s)
+    pre = dict(vg.env)
+    names = [n.id for n in ast.walk(loop.target) if isinstance(n, ast.Name)]
+    for nm, sym in zip(names, symbols):
+        vg.env[nm] = ("sym", sym)
+    vg.run(loop.body)
+    return vg, pre
+
+
 def rule_r3(rep, repo):
+    """Constructor: slice-wise concatenation delimited by a cumulative index table (value graphs:
+    local names and statement order do not matter)."""
+    from gridlint import e5
     f = repo.method("MolGrid", "__init__")
     body = strip_docstring(f.node.body)
     loop = next((s for s in body if isinstance(s, ast.For) and "atgrids" in norm(s.iter)), None)
-    if loop is None:
-        raise AnalysisError("unrecognised idiom: MolGrid.__init__ has no loop over the atomic grids")
-    txt = [norm(s) for s in loop.body]
-    grid = norm(loop.target.elts[1]) if isinstance(loop.target, ast.Tuple) else norm(loop.target)
-    i = norm(loop.target.elts[0]) if isinstance(loop.target, ast.Tuple) else None
-    checks = {
-        "index-table-cumulative": any(t.replace(" ", "") in (f"self._indices[{i}+1]+=self._indices[{i}]+{grid}.size",
-                                                             f"self._indices[{i}+1]=self._indices[{i}]+{grid}.size")
-                                      for t in txt),
-        "slice-bounds-from-table": any(t == f"start, end = (self._indices[{i}], self._indices[{i} + 1])" for t in txt),
-        "points-copied-by-slice": any(t == f"self._points[start:end] = {grid}.points" for t in txt),
-        "weights-copied-by-slice": any(t == f"self._atweights[start:end] = {grid}.weights" for t in txt),
-        "centres-recorded": any(t == f"self._atcoords[{i}] = {grid}.center" for t in txt),
-    }
-    for k, okk in checks.items():
+    if loop is None or not norm(loop.iter).startswith("enumerate("):
+        raise AnalysisError("unrecognised idiom: MolGrid.__init__ has no `for i, g in enumerate(atgrids)` loop")
+    vg, pre = _loop_graph(repo, "MolGrid", f, loop, ["I", "G"])
+    I, G = ("sym", "I"), ("sym", "G")
+    I1 = e5.mk_ac("+", [I, ("const", "1")])
+    where = repo.rel("molgrid", loop)
+    cons = f.qual
+
+    def field(name):
+        return vg.env.get(f"self.{name}")
+
+    def last_store(g, base):
+        """(index, value, previous) of the outermost functional update of a field."""
+        if isinstance(g, tuple) and g and g[0] == "setitem":
+            return g[2], g[3], g[1]
+        return None
+    # index table
+    idx_field = None
+    for k, v in vg.env.items():
+        if k.startswith("self.") and last_store(v, None) and last_store(v, None)[0] == I1 and pre.get(k) is not None \
+                and "dtype" in repr(pre.get(k)):
+            idx_field = k
+    if idx_field is None:
+        raise AnalysisError("unrecognised idiom: MolGrid.__init__ keeps no cumulative index table updated at [i + 1]")
+    key, val, prev = last_store(vg.env[idx_field], None)
+    size_g = ("attr", G, "size")
+    want = e5.mk_ac("+", [("sub", prev, I), size_g])
+    want_aug = e5.mk_ac("+", [("sub", prev, I1), ("sub", prev, I), size_g])  # `+=` on a zero-initialised table
+    zero_init = "zeros" in repr(pre[idx_field])
+    if val == want or (val == want_aug and zero_init):
+        rep.ok("R3.concatenation", "MolGrid.__init__:index-table-cumulative", where, e5.show(val, 90))
+    else:
+        rep.violation("R3.concatenation", cons, "index-table-cumulative",
+                      f"entry i+1 of the index table is set to {e5.show(val, 110)}; it must be entry i plus the size of "
+                      f"atomic grid i, otherwise indices[k]:indices[k+1] no longer delimits atom k", where)
+    IDX = vg.env[idx_field]
+    lo, hi = ("sub", IDX, I), ("sub", IDX, I1)
+    for fld, attr, role in (("_points", "points", "points-copied-by-slice"), ("_atweights", "weights", "weights-copied-by-slice")):
+        g = field(fld)
+        st = last_store(g, None)
+        if st is None:
+            raise AnalysisError(f"unrecognised idiom: MolGrid.__init__ does not fill self.{fld} slice-wise")
+        k, v, _ = st
+        okk = k == ("slice", lo, hi, None) and v == ("attr", G, attr)
         if okk:
-            rep.ok("R3.concatenation", f"MolGrid.__init__:{k}", repo.rel("molgrid", loop), "")
+            rep.ok("R3.concatenation", f"MolGrid.__init__:{role}", where, f"self.{fld}[indices[i]:indices[i+1]] = g.{attr}")
         else:
-            rep.violation("R3.concatenation", f.qual, k,
-                          f"the constructor loop does not contain the expected statement for `{k}`: points/weights of "
-                          f"atom k are no longer the slice indices[k]:indices[k+1]", repo.rel("molgrid", loop))
+            rep.violation("R3.concatenation", cons, role,
+                          f"self.{fld}[{e5.show(k, 80)}] = {e5.show(v, 60)}: the {attr} of atom i must be copied into "
+                          f"exactly the slice indices[i]:indices[i+1]", where)
+    g = field("_atcoords")
+    st = last_store(g, None)
+    if st is not None and st[0] == I and st[1] == ("attr", G, "center"):
+        rep.ok("R3.concatenation", "MolGrid.__init__:centres-recorded", where, "")
+    else:
+        rep.violation("R3.concatenation", cons, "centres-recorded",
+                      "row i of the atomic coordinates is not the centre of atomic grid i", where)
     sup = [n for n in ast.walk(f.node) if isinstance(n, ast.Call) and norm(n.func) == "super().__init__"]
-    if len(sup) == 1 and len(sup[0].args) == 2 and norm(sup[0].args[1]) in ("self._atweights * self._aim_weights",
-                                                                             "self._aim_weights * self._atweights") \
-            and norm(sup[0].args[0]) in ("self.points", "self._points"):
+    okk = False
+    if len(sup) == 1 and len(sup[0].args) == 2:
+        w = e5.VG(repo, "MolGrid", f.node, inline=False).ev(sup[0].args[1])
+        okk = w == e5.mk_ac("*", [("attr", ("sym", "self"), "_atweights"), ("attr", ("sym", "self"), "_aim_weights")]) \
+            and norm(sup[0].args[0]) in ("self.points", "self._points")
+    if okk:
         rep.ok("R3.aim-weights-applied-once", "MolGrid.__init__", repo.rel("molgrid", sup[0]), norm(sup[0])[:80])
     else:
-        rep.violation("R3.aim-weights-applied-once", f.qual, "weights",
+        rep.violation("R3.aim-weights-applied-once", cons, "weights",
                       "the molecular weights are not atomic weights times aim weights (applied exactly once)", f.loc())
-    # callable aim weights are evaluated on the molecular points with the index table
     call = [n for n in ast.walk(f.node) if isinstance(n, ast.Call) and norm(n.func) == "aim_weights"]
     if call and [norm(a) for a in call[0].args] == ["self._points", "self._atcoords", "atnums", "self._indices"]:
         rep.ok("R3.aim-callable-arguments", "MolGrid.__init__", repo.rel("molgrid", call[0]), norm(call[0])[:80])
     else:
-        rep.violation("R3.aim-callable-arguments", f.qual, "aim_weights-call",
+        rep.violation("R3.aim-callable-arguments", cons, "aim_weights-call",
                       "the aim-weight callable is not evaluated as aim_weights(points, atcoords, atnums, indices)", f.loc())
+
+
+def rule_r4(rep, repo):
+    """The default radial grid is built by two copies (AtomGrid.from_preset with rgrid=None and
+    molgrid._generate_default_rgrid): they must be the same value graph."""
+    from gridlint import e5
+    fa = repo.method("AtomGrid", "from_preset")
+    fb = repo.module_func("molgrid", "_generate_default_rgrid")
+    if any(isinstance(n, ast.Call) and norm(n.func).endswith("_generate_default_rgrid") for n in ast.walk(fa.node)):
+        rep.ok("R4.default-rgrid-siblings", "AtomGrid.from_preset~_generate_default_rgrid", fa.loc(), "delegates")
+        return
+    # region in fa: the body of `if rgrid is None:` -> `if atnum in TABLE:`
+    blk = next((s for s in strip_docstring(fa.node.body) if isinstance(s, ast.If) and norm(s.test) == "rgrid is None"), None)
+    if blk is None:
+        raise AnalysisError("unrecognised idiom: AtomGrid.from_preset has no `if rgrid is None:` default branch")
+    inner = next((s for s in blk.body if isinstance(s, ast.If)), None)
+    binner = next((s for s in strip_docstring(fb.node.body) if isinstance(s, ast.If)), None)
+    if inner is None or binner is None or norm(inner.test) != norm(binner.test):
+        raise AnalysisError("unrecognised idiom: default radial grid siblings do not test table membership the same way")
+    A = e5.VG(repo, "AtomGrid", fa.node)
+    A.run(inner.body)
+    B = e5.VG(repo, None, fb.node)
+    B.run(binner.body)
+    ga = A.env.get("rgrid")
+    gb = B.ret if B.ret is not None else B.env.get("rgrid")
+    if ga is None or gb is None:
+        raise AnalysisError("unrecognised idiom: default radial grid siblings do not produce `rgrid`")
+    d = e5.diff(ga, gb)
+    if d is None:
+        rep.ok("R4.default-rgrid-siblings", "AtomGrid.from_preset~_generate_default_rgrid", fa.loc(), e5.show(ga, 150))
+    else:
+        rep.violation("R4.default-rgrid-siblings", "molgrid._generate_default_rgrid", "rgrid",
+                      f"the default radial grid of MolGrid ({e5.show(d[2], 90)}) differs from the one AtomGrid.from_preset "
+                      f"builds by hand ({e5.show(d[1], 90)}): the convenience constructor no longer produces the grid "
+                      f"obtained atom by atom with the same arguments", fb.loc(),
+                      [f"first differing node at {d[0]}", f"sibling at {repo.rel('atomgrid', inner)}"])
 
 
 def run(tier="quick", root="/repo", evidence_dir=None, quiet=False):
@@ -335,5 +428,6 @@ def run(tier="quick", root="/repo", evidence_dir=None, quiet=False):
     rule_r1(rep, repo)
     rule_r2(rep, repo)
     rule_r3(rep, repo)
+    rule_r4(rep, repo)
     rep.extra["source_digest"] = repo.digest(["molgrid", "atomgrid"])
     return rep.finish(evidence_dir=evidence_dir, quiet=quiet)
